@@ -9,7 +9,7 @@
     * `mcs_invariant`: the full protocol invariant (queue of groups, meaning of every lock and node word,
       node ownership) holds in every reachable state.
 -/
-import CppUtil.Proofs.McsThm
+import CppUtil.Proofs.McsLive
 import CppUtil.Props.McsWordsGen
 
 namespace CppUtil.Props
@@ -54,6 +54,32 @@ theorem mcs_single_sixx (nlocks nthreads : Nat) (acts : List Act)
     (hga : a.loc.grant? = some m) (hgb : b.loc.grant? = some m') (hm : m ≠ .S) : m' = .S := by
   have := mcs_exclusion nlocks nthreads acts hr i j a b m m' hij hi hj hlk hga hgb
   cases m <;> cases m' <;> simp_all [conflict]
+
+theorem mcs_invariant_live (nlocks nthreads : Nat) (acts : List Act)
+    (hr : RunOK mcsPb mcsCb mcsParams (mkSt nlocks nthreads) acts) :
+    InvL McsWordsGen.Wc mcsParams mcsPb mcsCb (run mcsParams (mkSt nlocks nthreads) acts)
+      (ghostRun mcsParams (mkSt nlocks nthreads) (fun _ => []) acts) :=
+  invl_run McsWordsGen.wordSpecs mcs_publish_is_rmw acts _ _
+    (invl_init nlocks nthreads (by decide) (by decide)) hr
+
+/-- **C12 for MCSLock (second half)**: in every reachable state every live queue node is either the spare
+    node in some thread's cache or the node of an outstanding (unfinished) request — so the number of live
+    nodes never exceeds #threads + #outstanding requests, and nothing is lost -/
+theorem mcs_live_nodes_accounted (nlocks nthreads : Nat) (acts : List Act)
+    (hr : RunOK mcsPb mcsCb mcsParams (mkSt nlocks nthreads) acts) (k : Nat)
+    (hk : nodeLive (run mcsParams (mkSt nlocks nthreads) acts) k = true) :
+    (∃ t : Nat, (run mcsParams (mkSt nlocks nthreads) acts).tls[t]? = some (some k)) ∨
+    (∃ (i : Nat) (a : Agent), (run mcsParams (mkSt nlocks nthreads) acts).agents[i]? = some a ∧
+      a.loc ≠ Loc.done ∧ a.qnode = k) :=
+  live_accounted (mcs_invariant_live nlocks nthreads acts hr) k hk
+
+/-- … and once every request has finished the only live nodes are cached spares, which thread exit deletes -/
+theorem mcs_no_leak_at_quiescence (nlocks nthreads : Nat) (acts : List Act)
+    (hr : RunOK mcsPb mcsCb mcsParams (mkSt nlocks nthreads) acts)
+    (hdone : ∀ a ∈ (run mcsParams (mkSt nlocks nthreads) acts).agents, a.loc = Loc.done) (k : Nat)
+    (hk : nodeLive (run mcsParams (mkSt nlocks nthreads) acts) k = true) :
+    ∃ t : Nat, (run mcsParams (mkSt nlocks nthreads) acts).tls[t]? = some (some k) :=
+  quiescent_cached (mcs_invariant_live nlocks nthreads acts hr) hdone k hk
 
 /-! ### a decidable form of the side condition, and non-vacuity -/
 
